@@ -34,6 +34,10 @@ enum Recipe {
     InString { open: char, n: usize },
     /// n brackets inside a `//` comment before / inside a small command
     InComment { open: char, n: usize, place: String },
+    /// a `//` comment holding `payload` (any characters but LF), a newline, then a tower of total depth n
+    CommentPayload { payload: String, open: char, n: usize, place: String },
+    /// a string literal holding `payload` (valid string source text), then a tower of total depth n
+    StringPayload { payload: String, open: char, n: usize },
     /// n operators that nest without brackets
     OpTower { op: String, n: usize },
     /// a command padded to exactly `len` bytes
@@ -177,6 +181,50 @@ fn trick(name: &str, n: usize) -> String {
     }
 }
 
+/// One WHERE clause that nests `open` so that, inside a WHERE block, the total depth is `n`.
+fn tower_clause(open: char, n: usize) -> String {
+    match open {
+        '[' => format!("?t {{a: {}1{} }}", "[".repeat(n - 2), "]".repeat(n - 2)),
+        '{' => format!("?t {}1{}", "{a: ".repeat(n - 1), "}".repeat(n - 1)),
+        _ => format!("{}?o{}", "(?s, \"p\", ".repeat(n - 1), ")".repeat(n - 1)),
+    }
+}
+
+/// Characters a comment may hold that a second scanner could treat differently from the lexer:
+/// quote, CR, backslash, slash, Unicode line separators, form feed, plus filler.
+const COMMENT_ALPHABET: [&str; 8] = ["\"", "\r", "\\", "/", "x", "\u{2028}", "\u{0c}", " "];
+/// Pieces of valid string source text: escapes, comment openers, filler.
+const STRING_ALPHABET: [&str; 9] = ["\\\"", "\\\\", "\\/", "\\n", "//", "/", "x", " ", "\\u0022"];
+
+fn words_over(alphabet: &[&str], max_len: usize) -> Vec<String> {
+    let mut out = vec![String::new()];
+    let mut layer = vec![String::new()];
+    for _ in 0..max_len {
+        let mut next = Vec::new();
+        for w in &layer {
+            for a in alphabet {
+                next.push(format!("{w}{a}"));
+            }
+        }
+        out.extend(next.iter().cloned());
+        layer = next;
+    }
+    out
+}
+
+fn comment_payload(payload: &str, open: char, n: usize, place: &str) -> String {
+    match place {
+        // the comment before the command
+        "before" => format!("// {payload}\nFIND(?t) WHERE {{ {} }}", tower_clause(open, n)),
+        // the comment between two clauses of the block
+        _ => format!("FIND(?t) WHERE {{ ?q {{a: 1}} // {payload}\n {} }}", tower_clause(open, n)),
+    }
+}
+
+fn string_payload(payload: &str, open: char, n: usize) -> String {
+    format!("FIND(?t) WHERE {{ ?q {{s: \"{payload}\"}} {} }}", tower_clause(open, n))
+}
+
 const OPS: &[&str] = &["!", "-", "&&", "||", ".a", "!(", "--"];
 
 fn op_tower(op: &str, n: usize) -> String {
@@ -261,6 +309,8 @@ fn build(recipe: &Recipe) -> String {
                 _ => format!("DESCRIBE PRIMER MODE \"full\" // {tower}"),
             }
         }
+        Recipe::CommentPayload { payload, open, n, place } => comment_payload(payload, *open, *n, place),
+        Recipe::StringPayload { payload, open, n } => string_payload(payload, *open, *n),
         Recipe::OpTower { op, n } => op_tower(op, *n),
         Recipe::Length { pad, len } => padded(pad, *len),
     }
@@ -306,6 +356,62 @@ fn recipes(thorough: bool) -> Vec<Recipe> {
             });
         }
     }
+    // every short comment / string content in front of a tower just over and just at the limit:
+    // a scanner that disagrees with the lexer about where that comment or string ends loses count
+    let (clen, slen) = if thorough { (5, 4) } else { (4, 3) };
+    for payload in words_over(&COMMENT_ALPHABET, clen) {
+        for open in ['(', '[', '{'] {
+            out.push(Recipe::CommentPayload {
+                payload: payload.clone(),
+                open,
+                n: 65,
+                place: "before".into(),
+            });
+        }
+        // within the limit and at the other place: one bracket kind, rotating
+        let open = ['(', '[', '{'][payload.len() % 3];
+        out.push(Recipe::CommentPayload {
+            payload: payload.clone(),
+            open,
+            n: 64,
+            place: "inside".into(),
+        });
+        out.push(Recipe::CommentPayload {
+            payload: payload.clone(),
+            open,
+            n: 65,
+            place: "inside".into(),
+        });
+    }
+    // the killing depth for the classic two: bare CR / CRLF followed by 1, 2, 3 quotes
+    for cr in ["\r", "x\r", "\r\r", "x\r y "] {
+        for quotes in 1..=3 {
+            for open in ['(', '[', '{'] {
+                for n in [80, 10_000] {
+                    out.push(Recipe::CommentPayload {
+                        payload: format!("{cr}{}", "\"".repeat(quotes)),
+                        open,
+                        n,
+                        place: "before".into(),
+                    });
+                }
+            }
+        }
+    }
+    for payload in words_over(&STRING_ALPHABET, slen) {
+        for open in ['(', '[', '{'] {
+            out.push(Recipe::StringPayload {
+                payload: payload.clone(),
+                open,
+                n: 65,
+            });
+        }
+        out.push(Recipe::StringPayload {
+            payload: payload.clone(),
+            open: ['(', '[', '{'][payload.len() % 3],
+            n: 64,
+        });
+    }
     for pad in PADS {
         for len in [MAX_KIP_INPUT_LEN - 1, MAX_KIP_INPUT_LEN, MAX_KIP_INPUT_LEN + 1] {
             out.push(Recipe::Length {
@@ -324,9 +430,32 @@ fn class_of(recipe: &Recipe) -> String {
         Recipe::Trick { trick, .. } => format!("trick:{trick}"),
         Recipe::InString { open, .. } => format!("in-string{open}"),
         Recipe::InComment { open, place, .. } => format!("in-comment{open}{place}"),
+        // the class names the family and which special characters the content has, not the content
+        Recipe::CommentPayload { payload, open, place, .. } => {
+            format!("comment-payload{open}{place}:{}", char_classes(payload))
+        }
+        Recipe::StringPayload { payload, open, .. } => format!("string-payload{open}:{}", char_classes(payload)),
         Recipe::OpTower { op, .. } => format!("op:{op}"),
         Recipe::Length { pad, .. } => format!("len:{pad}"),
     }
+}
+
+/// Which of the lexically special characters a payload contains (sorted, each once).
+fn char_classes(payload: &str) -> String {
+    let mut names: Vec<&str> = Vec::new();
+    for (c, name) in [
+        ('"', "quote"),
+        ('\r', "cr"),
+        ('\\', "backslash"),
+        ('/', "slash"),
+        ('\u{2028}', "u2028"),
+        ('\u{0c}', "ff"),
+    ] {
+        if payload.contains(c) {
+            names.push(name);
+        }
+    }
+    if names.is_empty() { "plain".into() } else { names.join("+") }
 }
 
 fn check(ctx: &mut Ctx, recipe: &Recipe) {
@@ -404,6 +533,13 @@ fn check(ctx: &mut Ctx, recipe: &Recipe) {
                 fail(ctx, "brackets-in-comment-change-the-command", o.kip.brief());
             }
         }
+        Recipe::CommentPayload { open, n, place, .. } => {
+            // same command as with an empty comment
+            let plain = run_kip(&comment_payload("", *open, *n, place));
+            if o.kip != plain {
+                fail(ctx, "comment-content-changes-the-command", o.kip.brief());
+            }
+        }
         Recipe::Length { pad, len } if *len <= MAX_KIP_INPUT_LEN => {
             // padding with whitespace / comments leaves the command unchanged
             if matches!(pad.as_str(), "trailing-spaces" | "leading-newlines" | "comment" | "comment-lines") {
@@ -459,7 +595,9 @@ fn main() {
     run.rule(&format!(
         "for each total nesting depth in the tier's list x (3 bracket kinds x raw open/closed, in a string, in a comment at 3 \
          places; {} nesting constructs of KQL/KML/META/JSON; {} lexical tricks against a bracket pre-scan; {} bracket-free \
-         operator towers) and {} paddings x (MAX-1, MAX, MAX+1 bytes): every entry point, child process, {stack}-byte stack, \
+         operator towers); ALL comment contents over an 8-character alphabet (quote, CR, backslash, slash, U+2028, FF, x, space) up \
+         to length 4 (5 thorough) and ALL string contents over 9 source pieces up to 3 (4) in front of towers at depth 64 / 65, \
+         CR + 1..3 quotes also at depth 80 and 10^4; and {} paddings x (MAX-1, MAX, MAX+1 bytes): every entry point, child process, {stack}-byte stack, \
          5 s deadline. Over-limit (independent byte / bracket count) => every entry point refuses with ResourceExhausted; \
          within limits => totality and agreement; brackets in strings/comments and padding leave the command unchanged",
         CONTEXTS.len(),
